@@ -214,7 +214,96 @@ def f():
 """),
 ]
 
+NEQ += [
+    ("counter loop whose body skips the increment with continue", """
+def f(xs, n):
+    i = 0
+    out = []
+    while i < n:
+        if xs[i] is None:
+            continue
+        out.append(xs[i])
+        i += 1
+    return out
+""", """
+def f(xs, n):
+    out = []
+    for i in range(n):
+        if xs[i] is None:
+            continue
+        out.append(xs[i])
+    return out
+"""),
+    ("counter read after the loop", """
+def f(n):
+    i = 0
+    while i < n:
+        g(i)
+        i += 2
+    return i
+""", """
+def f(n):
+    for i in range(0, n, 2):
+        g(i)
+    return i
+"""),
+    ("bound that the body moves", """
+def f(n):
+    i = 0
+    while i < n:
+        n = g(i, n)
+        i += 1
+    return n
+""", """
+def f(n):
+    for i in range(n):
+        n = g(i, n)
+    return n
+"""),
+    ("module constant with another value", """
+_K = 8
+def f(s):
+    return s[:_K]
+""", """
+def f(s):
+    return s[:16]
+"""),
+    ("local that hides the module constant", """
+_K = 8
+def f(s, _K):
+    return s[:_K]
+""", """
+def f(s, _K):
+    return s[:8]
+"""),
+]
+
 EQ = [
+    ("index loop with a next-index temporary", """
+def f(s):
+    k = g(s)
+    idx = 8
+    end = len(s)
+    while idx < end:
+        nxt = idx + 8
+        k = h(k, s[idx:nxt])
+        idx = nxt
+    return k
+""", """
+def f(s):
+    k = g(s)
+    for idx in range(8, len(s), 8):
+        k = h(k, s[idx:idx + 8])
+    return k
+"""),
+    ("literal hoisted into a module constant", """
+_MASK = (1 << 32) - 1
+def f(x):
+    return x & _MASK
+""", """
+def f(x):
+    return x & 0xFFFFFFFF
+"""),
     ("abbreviation of an attribute with no call in between", """
 def f(self, x):
     salt = self.salt
@@ -279,7 +368,10 @@ def f(a):
 
 def _nf(src):
     tree = ast.parse(textwrap.dedent(src))
-    node = tree.body[0]
+    env = equiv._const_env(tree)
+    node = [n for n in tree.body if isinstance(n, (ast.FunctionDef, ast.ClassDef))][0]
+    if env and isinstance(node, ast.FunctionDef):
+        node = equiv._fold_consts(node, env)
     if isinstance(node, ast.ClassDef):
         fn = node.body[0]
         return equiv.normal_form(fn, None, True, ast.unparse(node.bases[0]) if len(node.bases) == 1 else None), fn
